@@ -6,9 +6,9 @@ VARIANTS = {
     # what the repository's own test-suite builds: release, no padding
     "rel": dict(HIST, mi_flags=["-O2", "-DNDEBUG", "-DMI_BUILD_RELEASE"], harness_flags=[]),
     # full internal invariant checking, padding canaries, encoded free lists, decommit = PROT_NONE
-    "dbg": dict(HIST, mi_flags=["-O1", "-g", "-DMI_DEBUG=3"], harness_flags=["-DVF_PADDING", "-DVF_DEBUG_BUILD"]),
+    "dbg": dict(HIST, mi_flags=["-O1", "-g", "-DMI_DEBUG=3"], harness_flags=["-DVF_PADDING", "-DVF_DEBUG_BUILD"], aux_src=["forge_helper.c"]),
     # hardened release build
-    "sec": dict(HIST, mi_flags=["-O2", "-DNDEBUG", "-DMI_SECURE=4"], harness_flags=["-DVF_PADDING", "-DVF_SECURE_BUILD"]),
+    "sec": dict(HIST, mi_flags=["-O2", "-DNDEBUG", "-DMI_SECURE=4"], harness_flags=["-DVF_PADDING", "-DVF_SECURE_BUILD"], aux_src=["forge_helper.c"]),
 }
 
 SCHED = {"harness": "sched", "harness_src": "sched.cc"}
